@@ -748,6 +748,26 @@ func (w *bpWorld) step(op string, a []string) opOut {
 	if w.dead || isRootTarget(w, op, a) {
 		return opOut{caseTxt: head + " ; skip", obsTxt: "skip"}
 	}
+	if op == "XBaseChdir" {
+		// another user of the shared base file system changes ITS current directory (not a call of the
+		// wrapper): if the directory is outside B the wrapper's current directory becomes the virtual root,
+		// if it is inside B it follows - the reference is moved accordingly
+		err := w.base.Chdir(a[0])
+		if err == nil && w.ref != nil {
+			c := filepath.Clean(a[0])
+			switch {
+			case w.B == "/":
+				_ = w.ref.Chdir(c)
+			case c == w.B:
+				_ = w.ref.Chdir("/")
+			case strings.HasPrefix(c, w.B+"/"):
+				_ = w.ref.Chdir(strings.TrimPrefix(c, w.B))
+			default:
+				_ = w.ref.Chdir("/")
+			}
+		}
+		return opOut{caseTxt: head + " ; ext", obsTxt: "ext"}
+	}
 	bcwd, _ := w.base.Getwd()
 	out0 := w.outside()
 	var refAbs func(string) string
@@ -1022,6 +1042,10 @@ type hist struct {
 
 func bpModePrefix(mode string) []bpOp {
 	switch mode {
+	case "ext":
+		return []bpOp{{"XBaseChdir", []string{"/cc"}}}
+	case "ext1":
+		return []bpOp{{"Chdir", []string{"/a"}}, {"XBaseChdir", []string{"/a"}}}
 	case "post":
 		return []bpOp{{"Chdir", []string{"/a/b"}}}
 	case "post1":
@@ -1055,6 +1079,8 @@ func randHist(r *rng, kind, B string, n int) hist {
 	h := hist{kind: kind, B: B}
 	for i := 0; i < n; i++ {
 		switch k := r.intn(12); {
+		case k == 0 && r.chance(1, 3):
+			h.ops = append(h.ops, bpOp{"XBaseChdir", []string{r.pick([]string{"/", "/a", "/tmp", "/c", "/c/a", "/c/c", "/cc", "/c/d"})}})
 		case k == 0:
 			h.ops = append(h.ops, bpOp{"Getwd", nil})
 		case k == 1:
@@ -1080,6 +1106,7 @@ func bpCorpus() []hist {
 		mk("/c", bpOp{"Open", []string{"../b"}}, bpOp{"Glob", []string{"/../*"}}, bpOp{"Glob", []string{"*"}}),
 		mk("/c", bpOp{"Stat", []string{"/../cc/secret2"}}, bpOp{"Rename", []string{"/b", "/../stolen"}}, bpOp{"Link", []string{"/../secret", "/s"}}),
 		mk("/", bpOp{"Stat", []string{"/nope"}}, bpOp{"Chdir", []string{"/a"}}, bpOp{"Getwd", nil}, bpOp{"Open", []string{"f"}}),
+		mk("/c", bpOp{"XBaseChdir", []string{"/cc"}}, bpOp{"Getwd", nil}, bpOp{"ReadFile", []string{"secret2"}}, bpOp{"Stat", []string{"../secret"}}, bpOp{"WriteFile", []string{"w"}}),
 		mk("/c/d", bpOp{"Mkdir", []string{"/x"}}, bpOp{"Chdir", []string{"x"}}, bpOp{"WriteFile", []string{"../../y"}}, bpOp{"Getwd", nil}),
 	}
 }
@@ -1102,8 +1129,8 @@ func runBpFs(cfg config) {
 		}
 		// B = "/c": its only component is in the alphabet
 		for _, s := range bpAllStrings("ab./c", maxLen) {
-			for _, mode := range []string{"pre", "post", "post1"} {
-				if len(s) > maxLenAll && mode == "post1" {
+			for _, mode := range []string{"pre", "post", "post1", "ext", "ext1"} {
+				if len(s) > maxLenAll && mode != "pre" && mode != "post" {
 					continue
 				}
 				ops := append(bpModePrefix(mode), opsFor(s)...)
